@@ -6,6 +6,7 @@
 -/
 import TypedpyModel.Drive.Wire
 import TypedpyModel.Sem.World
+import TypedpyModel.Sem.WorldDecl
 import TypedpyModel.Generated.Registries
 namespace Typedpy.Drive.World
 open Lean (Json)
@@ -247,6 +248,34 @@ def classJson (h : List WorldOp) (wEnd : World) (closures : Json) (c : ClassId) 
       ("interferes", Json.bool (va != vb)),
       ("causes", strs (causes va vb))]
 
+/-- the "decl" block: interpret the field tags as the `FieldDecl`s the harness dumped from the real field objects and
+    evaluate `constructVal` (Sem/WorldDecl.lean: the Sem/Validate constructor of the declaration assembled from
+    the class's VIEW in the final world) on the concrete probe arguments -/
+def declBlock (j : Json) (wEnd : World) : Except String Json := do
+  match optField j "decl" with
+  | none => pure Json.null
+  | some d =>
+    let prims ← (← kvList d "prims").mapM fun (k, x) => do pure (k, ← declOfJson x)
+    let dflts ← (← kvList d "defaults").mapM fun (k, x) => do pure (k, ← valOfJson x)
+    let env : DeclEnv := { prim := fun t => (prims.find? fun p => p.1 == toString t).map (·.2),
+                           dflt := fun t => (dflts.find? fun p => p.1 == toString t).map (·.2) }
+    let O ← oraclesOfJson d
+    let probes ← match optField d "probes" with
+      | some (.arr a) => pure a.toList
+      | _ => pure []
+    let res ← probes.mapM fun p => do
+      let c ← (← p.getObjVal? "c").getNat?
+      let kw ← kwOfJson (← p.getObjVal? "kw")
+      let r : String := match view cfg wEnd c with
+        | none => "undefined"
+        | some b => match constructVal O env b kw with
+          | none => "outside"
+          | some (.ok _) => "ok"
+          | some (.error e) => errName e
+      pure (Json.mkObj [("c", Json.num (Lean.JsonNumber.fromNat c)), ("name", (p.getObjVal? "name").toOption.getD Json.null),
+                        ("res", Json.str r)])
+    pure (Json.arr res.toArray)
+
 def run (j : Json) : Except String Json := do
   let groups ← (← (← j.getObjVal? "ops").getArr?).toList.mapM opOfJson
   let ops := groups.flatten
@@ -254,7 +283,9 @@ def run (j : Json) : Except String Json := do
   let r := runSteps World.initial groups
   let wEnd := r.1
   let ids := ops.filterMap fun op => match op with | .define c _ => some c | _ => none
+  let declRes ← declBlock j wEnd
   pure (Json.mkObj [
+    ("declResults", declRes),
     ("steps", Json.arr r.2.toArray),
     ("world", Json.mkObj [("counter", Json.num (Lean.JsonNumber.fromNat wEnd.srCounter)),
                           ("flags", Json.mkObj [("addProps", Json.bool wEnd.flags.addProps),
